@@ -1010,14 +1010,15 @@ def ref_resolution(repo: Repo, R):
             f"update_ref_deps: each connected port replaced by the referent (same port name): {ok1}; dependent slices re-parented: {ok2}; concat parts substituted position-wise: {ok3}",
             why="ports, slices or concatenations that used the reference keep pointing at the unresolved reference or at another part")
     # follow(): both directions
-    ff = repo.find_func(F_PORTREFS, "ResolvePortRefs.elaborate_module.<locals>.follow")
+    ff = follow_function(repo)
     if ff is None:
-        raise AnalysisError("anchor-vanished: closure `follow` in ResolvePortRefs.elaborate_module")
+        raise AnalysisError("anchor-vanished: the group-collecting function called from ResolvePortRefs.elaborate_module")
+    fname = ff.name
     pr = ff.node.args.args[0].arg
     fwd = pat.find(f"{pr}.inst.conns.get({pr}.portname, *$_)", ff.node) or pat.find(f"{pr}.inst.conns[{pr}.portname]", ff.node)
     back = [lp for lp in au.walk_no_nested(ff.node) if isinstance(lp, ast.For) and ast.unparse(lp.iter).replace("list(", "").rstrip(")") == f"{pr}._connected_ports"]
-    rec_f = bool(pat.find("follow(conn, group)", ff.node)) or bool(pat.find("follow($C, $G)", ff.node))
-    rec_b = bool(back) and bool(pat.find(f"follow({ast.unparse(back[0].target)}, $G)", back[0])) if back else False
+    rec_f = bool(pat.find(f"{fname}($C, $G, *$_)", ff.node))
+    rec_b = bool(back) and bool(pat.find(f"{fname}({ast.unparse(back[0].target)}, $G, *$_)", back[0])) if back else False
     addsrc = bool(pat.find("$G.add(conn)", ff.node)) or bool(pat.find("$G.add($C)", ff.node))
     R.check(bool(fwd) and rec_f and rec_b and addsrc, rule, key_of(ff), ff.site,
             f"follow: reads the port's own connection: {bool(fwd)}; recurses into it when it is a reference: {rec_f}; adds non-reference connections to the group: {addsrc}; recurses over every port connected to the reference: {rec_b}",
@@ -1027,6 +1028,19 @@ def ref_resolution(repo: Repo, R):
 # --------------------------------------------------------------------------
 # 15. secondary mechanisms of the same passes (added after the first build)
 # --------------------------------------------------------------------------
+
+
+
+def follow_function(repo: Repo) -> Optional[FuncInfo]:
+    """The function that collects a reference group, by role: the one called with `<pending>.pop()` as its first
+    argument from ResolvePortRefs.elaborate_module (a closure of it on the confirmed tree; may be a module-level function)."""
+    fe = repo.func(F_PORTREFS, "ResolvePortRefs.elaborate_module")
+    for c in au.calls_in(fe.node):
+        if c.args and isinstance(c.args[0], ast.Call) and isinstance(c.args[0].func, ast.Attribute) and c.args[0].func.attr == "pop" and isinstance(c.func, ast.Name):
+            ff = repo.find_func(F_PORTREFS, f"ResolvePortRefs.elaborate_module.<locals>.{c.func.id}") or repo.find_func(F_PORTREFS, c.func.id)
+            if ff is not None:
+                return ff
+    return None
 
 
 def secondary(repo: Repo, R, noret):
@@ -1055,7 +1069,7 @@ def secondary(repo: Repo, R, noret):
             f"port references are collected from {sorted(kinds)} (needs instances, arrays and instance bundles): every handed-out reference ({pr}) and every NoConn connection ({nc})",
             why="port references / no-connects on arrays or instance bundles are never resolved and reach the exporter")
     wl = [n for n in au.walk_no_nested(fe.node) if isinstance(n, ast.While) and isinstance(n.test, ast.Name)]
-    grp = bool(wl) and bool(pat.find(f"follow({ast.unparse(wl[0].test)}.pop(), $G)", wl[0]))
+    grp = bool(wl) and follow_function(repo) is not None and bool(pat.find(f"{follow_function(repo).name}({ast.unparse(wl[0].test)}.pop(), $G, *$_)", wl[0]))
     hg = False
     for n in au.walk_no_nested(fe.node):
         if isinstance(n, ast.For) and pat.find(f"self.handle_group(module, {ast.unparse(n.target)})", n) and enclosing(fe.node, n, (ast.If, ast.While, ast.For)) is None:
@@ -1088,11 +1102,11 @@ def secondary(repo: Repo, R, noret):
     many = any(isinstance(n, ast.If) and pat.match("1 < len($L)", prov(fwn.node, n.test)) is not None and au.raises(n.body, noret) for n in au.walk_no_nested(fwn.node))
     R.check(srt and many, rule, key_of(fwn), fwn.site, f"naming is deterministic (the unconnected port, else the first by (instance name, port name) — a total order on the group: {srt}); several unconnected ports fail: {many}", why="net names depend on iteration order")
     # (b) follow() distinguishes references from sources
-    ff = repo.find_func(F_PORTREFS, "ResolvePortRefs.elaborate_module.<locals>.follow")
+    ff = follow_function(repo)
     ok = False
-    if ff is not None and len(ff.node.args.args) == 2:
-        pv, gv = [a.arg for a in ff.node.args.args]
-        rec = [c for c, b in pat.find(f"follow($C, {gv})", ff.node) if pat.match(f"{pv}.inst.conns.get({pv}.portname)", prov(ff.node, b["C"])) is not None]
+    if ff is not None and len(ff.node.args.args) >= 2:
+        pv, gv = [a.arg for a in ff.node.args.args[:2]]
+        rec = [c for c, b in pat.find(f"{ff.name}($C, {gv}, *$_)", ff.node) if pat.match(f"{pv}.inst.conns.get({pv}.portname)", prov(ff.node, b["C"])) is not None]
         src = [c for c, b in pat.find(f"{gv}.add($C)", ff.node) if pat.match(f"{pv}.inst.conns.get({pv}.portname)", prov(ff.node, b["C"])) is not None]
         ok = len(rec) == 1 and len(src) == 1 and cond_match(ff.node, rec[0], "isinstance($C, PortRef)", True) and cond_match(ff.node, src[0], "isinstance($C, PortRef)", False)
     R.check(ok, rule, key_of(ff, "ref-vs-source") if ff else "follow", ff.site if ff else fe.site, f"a port's connection is followed when it is a reference and recorded as (candidate) source otherwise: {ok}", why="a reference is taken for a source (or a signal is followed as if it were a reference)")
